@@ -767,6 +767,9 @@ func (ctx *actorContext) tryTerminated() {
 	notifyMessage := &messages.Terminated{TerminatedProcess: ctx.ref}
 	// 通知监听者
 	for _, ref := range ctx.watchers {
+		if ctx.parentRef != nil && ref.Equal(ctx.parentRef) {
+			continue // 父 Actor 同时作为监听者时，仅通过下方的父级通知告知一次
+		}
 		ctx.deliverySystemMessage(ref, ref, ctx.ref, nil, notifyMessage)
 	}
 
